@@ -243,6 +243,17 @@ def rule_panic(check):
     check.floor(R, "panic obligations", n_ob, 25)
     # MIR cross-check: arithmetic / bounds asserts and direct panic calls in crate-written bodies
     n_mir = 0
+    # arithmetic overflow asserts exist only with overflow checks, i.e. in the dev profile; the shipped
+    # artefact is a release build (`wasm-pack build`), unless the manifest turns them on
+    strict_overflow = False
+    try:
+        import tomllib
+
+        with open(__import__("os").path.join(prog.repo, "Cargo.toml"), "rb") as fh:
+            man = tomllib.load(fh)
+        strict_overflow = bool(((man.get("profile") or {}).get("release") or {}).get("overflow-checks"))
+    except Exception:
+        strict_overflow = True
     for f in prog.fns:
         mir = f.rec.get("mir")
         if not mir or f.rec.get("gen"):
@@ -259,6 +270,8 @@ def rule_panic(check):
                     check.ok(R, key, where, "G9: counter/column + 1 (assumption: fewer than 2^32 increments)")
                 elif t["assert_kind"] == "Overflow" and "Sub" in t["msg"] and _span_len_sub(f, t["sp"]):
                     check.ok(R, key, where, "G13: span.hi - span.lo of one span (hi >= lo is an invariant of swc spans)")
+                elif t["assert_kind"] in ("Overflow", "OverflowNeg") and not strict_overflow:
+                    check.ok(R, key, where, "overflow checks are a dev-profile artefact: the release build wraps instead of panicking (profile.release has no overflow-checks)")
                 elif t["assert_kind"] == "BoundsCheck" and where in hir_lines:
                     check.ok(R, key, where, "bounds check of an index obligation handled above")
                 else:
